@@ -281,6 +281,23 @@ def edits(data, nested=True):
             new = list(chunks)
             new[k], new[k + 1] = new[k + 1], new[k]
             yield f"swap@{k}", "swap-header", codec.build_chunks(new), "swap"
+        # ... and of the (equally independent) attribute chunks inside one pattern section
+        for k in range(hdr_end, len(chunks) - 1):
+            a, b = chunks[k][0], chunks[k + 1][0]
+            # PDTA / PPAR open a section (they say which kind of pattern follows) and PEND closes it: not movable
+            if a[:1] == b"P" and b[:1] == b"P" and not {a, b} & {b"PEND", b"PDTA", b"PPAR"} and a != b:
+                new = list(chunks)
+                new[k], new[k + 1] = new[k + 1], new[k]
+                yield f"pswap@{k}", "swap-pattern-chunks:" + a.decode() + "," + b.decode(), codec.build_chunks(new), "swap"
+    # ... and of the independent attribute chunks of one module section (SFFF opens it, STYP names the type)
+    MOD_ATTR = {b"SNAM", b"SFIN", b"SREL", b"SXXX", b"SYYY", b"SZZZ", b"SSCL", b"SVPR", b"SCOL", b"SMII", b"SMIN",
+                b"SMIC", b"SMIB", b"SMIP"}
+    for k in range(len(chunks) - 1):
+        a, b = chunks[k][0], chunks[k + 1][0]
+        if a in MOD_ATTR and b in MOD_ATTR and a != b:
+            new = list(chunks)
+            new[k], new[k + 1] = new[k + 1], new[k]
+            yield f"mswap@{k}", "swap-module-chunks:" + a.decode() + "," + b.decode(), codec.build_chunks(new), "swap"
     if nested:
         for i, (cid, d) in enumerate(chunks):
             if cid == b"CHDT" and d[:4] in (b"SVOX", b"SSYN"):
